@@ -325,7 +325,14 @@ def check_numeric(t, n, col):
     elif t == "datetime":
         ok = type(r) is datetime.datetime and r.utcoffset() == datetime.timedelta(0) and abs(r - want) <= tol
     elif t == "date":
-        ok = type(r) is datetime.date and (r == want.date() or (isinstance(n, float) and abs(datetime.datetime(r.year, r.month, r.day, tzinfo=UTC) - want) <= datetime.timedelta(days=1) + tol and r in (want.date(), (want - tol).date(), (want + tol).date())))
+        near = {want.date()}
+        if isinstance(n, float):  # a float instant within its own rounding of a UTC midnight may land on either side
+            for w in (lambda: want - tol, lambda: want + tol):
+                try:
+                    near.add(w().date())
+                except OverflowError:
+                    pass
+        ok = type(r) is datetime.date and r in near
     elif t == "time":
         w = want.timetz()
         ok = type(r) is datetime.time and r.utcoffset() == datetime.timedelta(0) and (
